@@ -2,7 +2,7 @@
 
 Explicit-state breadth-first search over *texts*: a state is a source text (a str, or a list of chunk strings), a
 transition is one layout rewrite applied at one position, the invariant is parse_script(state) == parse_script(plain text of the
-same logical lines: comments and blank lines dropped, continued parts joined by one space, LF, one str).
+same logical lines: comments and blank lines dropped, continued parts joined by one space, no indentation, LF, one str).
 The rewrite system and the corpus are in mc/gen/layout.py and share no code with bare_script.
 """
 
@@ -21,7 +21,7 @@ RULE = ('state = one distinct source text (str, or tuple of chunk strings passed
         'the line end; one-element list; blank / "# comment" / indented comment / comment ending in a backslash inserted at any '
         'line gap, also between the parts of a continued line; one line re-indented to none / 2 spaces / tab; trailing spaces or '
         'tab on one line; one line broken with a trailing backslash, optionally followed by spaces, at one whitespace run between '
-        'two tokens); trace = one parse compared by deep equality with the model of the plain logical-line text of the root (comment and blank lines dropped, continued parts joined by one space). Breadth-first with '
+        'two tokens); trace = one parse compared by deep equality with the model of the plain logical-line text of the root (comment and blank lines dropped, continued parts joined by one space, no indentation). Breadth-first with '
         'de-duplication on the text to the depth bound from every corpus program; depth 1 (thorough: 2 for the short files) from '
         'every shipped .bare file; all 3^(n-1) chunkings of programs of <= 8 lines; all subsets of the gaps of every line; '
         'parse(A) parse(B) parse(A) for every ordered pair of a corpus of valid and invalid texts / expressions. '
@@ -402,7 +402,7 @@ def fam_state(arg):
 
 # ---- families ----------------------------------------------------------------------------------------------------------------
 
-SHORT_FILE_LINES = 160
+SHORT_FILE_LINES = 100
 
 
 def self_check():
